@@ -69,11 +69,12 @@ def usages(g, name, a, b, c, t):
     if name in ("dn_add_path", "dn_add_star", "dn_add_cycle"):
         return [(name, lambda h: getattr(dn, name[3:])(h, [a, c], t))]
     if name == "update_node_attr":
-        return [(name, lambda h: h.update_node_attr(a, lab=5))]
+        return [(name, lambda h: h.update_node_attr(a, lab=5)), (name, lambda h: h.update_node_attr(a, lab=0))]
     if name == "update_node_attr_from":
         return [(name, lambda h: h.update_node_attr_from([a], lab=5))]
     if name == "dn_set_node_attributes":
-        return [(name, lambda h: dn.set_node_attributes(h, {a: 7}, name="lab")), (name, lambda h: dn.set_node_attributes(h, 3, name="lab"))]
+        return [(name, lambda h: dn.set_node_attributes(h, {a: 7}, name="lab")), (name, lambda h: dn.set_node_attributes(h, 3, name="lab")),
+                (name, lambda h: dn.set_node_attributes(h, 0, name="lab")), (name, lambda h: dn.set_node_attributes(h, {a: {"lab": 0}}))]
     if name == "dn_set_edge_attributes":
         return [(name, lambda h: dn.set_edge_attributes(3, "w"))]
     if name == "dn_get_edge_attributes":
